@@ -14,6 +14,16 @@ from magpylib._src.style import BaseStyle
 from magpylib._src.utility import add_iteration_suffix
 
 
+def check_path_not_empty(pos):
+    """an object path has at least one entry"""
+    if len(pos) == 0:
+        raise MagpylibBadUserInput(
+            "Input parameter `position` must not be empty.\n"
+            f"Instead received array_like with shape {pos.shape}."
+        )
+    return pos
+
+
 def pad_slice_path(path1, path2):
     """edge-pads or end-slices path 2 to fit path 1 format
     path1: shape (N,x)
@@ -114,6 +124,7 @@ class BaseGeo(BaseTransform):
             sig_type="array_like (list, tuple, ndarray) with shape (3,) or (n,3)",
             reshape=(-1, 3),
         )
+        check_path_not_empty(pos)
         oriQ = check_format_input_orientation(orientation, init_format=True)
 
         # padding logic: if one is longer than the other, edge-pad up the other
@@ -176,13 +187,15 @@ class BaseGeo(BaseTransform):
         old_pos = self._position
 
         # check and set new position
-        self._position = check_format_input_vector(
-            inp,
-            dims=(1, 2),
-            shape_m1=3,
-            sig_name="position",
-            sig_type="array_like (list, tuple, ndarray) with shape (3,) or (n,3)",
-            reshape=(-1, 3),
+        self._position = check_path_not_empty(
+            check_format_input_vector(
+                inp,
+                dims=(1, 2),
+                shape_m1=3,
+                sig_name="position",
+                sig_type="array_like (list, tuple, ndarray) with shape (3,) or (n,3)",
+                reshape=(-1, 3),
+            )
         )
 
         # pad/slice and set orientation path to same length
